@@ -1273,8 +1273,9 @@ class Pool:
             if now - lost_time > job._lost_worker_timeout:
                 self.mark_as_worker_lost(job, lost_ret)
 
-        if shutdown and not len(self._pool):
-            raise WorkersJoined()
+        # (raised at the end: a job whose accept message is consumed only
+        # after its worker was reaped must still be found below)
+        workers_joined = shutdown and not len(self._pool)
 
         cleaned, exitcodes = {}, {}
         # (over a copy: at shutdown the supervisor's last pass and the result
@@ -1353,7 +1354,11 @@ class Pool:
                     if not shutdown:
                         self._process_cleanup_queues(worker)
                     self.on_process_down(worker)
+            if workers_joined:
+                raise WorkersJoined()
             return list(exitcodes.values())
+        if workers_joined:
+            raise WorkersJoined()
         return []
 
     def on_partial_read(self, job, worker):
